@@ -1,0 +1,162 @@
+//! Verification probes (compiled only with `--cfg pearl_verif`).
+//! Thin wrappers that expose crate-private structures to the external verification harness.
+//! Nothing here changes the behaviour of the library.
+
+use crate::blob::index::{Index, IndexTrait};
+use crate::blob::FileName;
+use crate::prelude::*;
+use crate::storage::ReadResult;
+
+/// Plain view of a record header
+#[derive(Debug, Clone, PartialEq, Eq)]
+pub struct HeaderView {
+    /// key bytes
+    pub key: Vec<u8>,
+    /// timestamp
+    pub timestamp: u64,
+    /// deletion marker flag
+    pub deleted: bool,
+    /// meta size
+    pub meta_size: u64,
+    /// data size
+    pub data_size: u64,
+    /// offset in blob
+    pub blob_offset: u64,
+}
+
+impl HeaderView {
+    fn of(h: &RecordHeader) -> Self {
+        Self {
+            key: h.key().to_vec(),
+            timestamp: h.timestamp(),
+            deleted: h.is_deleted(),
+            meta_size: h.meta_size(),
+            data_size: h.data_size(),
+            blob_offset: h.blob_offset(),
+        }
+    }
+}
+
+/// Wrapper around the crate-private blob index (in-memory <-> B+tree file)
+#[derive(Debug)]
+pub struct IndexProbe<K>
+where
+    for<'a> K: Key<'a>,
+{
+    index: Index<K>,
+    name: FileName,
+    bloom: Option<BloomConfig>,
+}
+
+impl<K> IndexProbe<K>
+where
+    for<'a> K: Key<'a> + 'static,
+{
+    fn config(bloom: &Option<BloomConfig>) -> IndexConfig {
+        IndexConfig {
+            bloom_config: bloom.clone(),
+            recreate_index_file: true,
+        }
+    }
+
+    /// New empty in-memory index whose file would be `<dir>/probe.<id>.index`
+    pub fn new(dir: &Path, id: usize, bloom: Option<BloomConfig>) -> Self {
+        let name = FileName::new("probe", id, "index", dir);
+        let index = Index::new(name.clone(), IoDriver::new(), Self::config(&bloom));
+        Self { index, name, bloom }
+    }
+
+    /// Open the index from its file (as `Blob::from_file` does); `blob_size` is checked by validation
+    pub async fn open(dir: &Path, id: usize, bloom: Option<BloomConfig>, blob_size: u64) -> Result<Self> {
+        let name = FileName::new("probe", id, "index", dir);
+        let index = Index::from_file(name.clone(), Self::config(&bloom), IoDriver::new(), blob_size).await?;
+        Ok(Self { index, name, bloom })
+    }
+
+    /// Path of the index file
+    pub fn path(&self) -> &Path {
+        self.name.as_path()
+    }
+
+    /// Push a header (as `Blob::write` / regeneration do)
+    pub fn push(&self, key: &K, timestamp: u64, deleted: bool, meta_size: u64, data_size: u64, blob_offset: u64) -> Result<()> {
+        let mut h = RecordHeader::new(key.as_ref().to_vec(), timestamp, meta_size, data_size, 0);
+        if deleted {
+            h.mark_as_deleted()?;
+        }
+        h.set_offset_checksum_unchecked(blob_offset);
+        self.index.push(key, h)
+    }
+
+    /// Dump to file
+    pub async fn dump(&mut self, blob_size: u64) -> Result<usize> {
+        self.index.dump(blob_size).await
+    }
+
+    /// Load into memory
+    pub async fn load(&mut self, blob_size: u64) -> Result<()> {
+        self.index.load(blob_size).await
+    }
+
+    /// Drop the in-memory content (as `Blob::load_index` does before regeneration)
+    pub fn clear(&mut self) {
+        self.index.clear()
+    }
+
+    /// Is the index on disk
+    pub fn on_disk(&self) -> bool {
+        self.index.on_disk()
+    }
+
+    /// Records count
+    pub fn count(&self) -> usize {
+        self.index.count()
+    }
+
+    /// Latest header of a key: Ok(Some((view, is_deleted_result))) / Ok(None)
+    pub async fn get_latest(&self, key: &K) -> Result<ReadResult<HeaderView>> {
+        Ok(self.index.get_latest(key).await?.map(|h| HeaderView::of(&h)))
+    }
+
+    /// All headers with deletion marker
+    pub async fn get_all_with_deletion_marker(&self, key: &K) -> Result<Vec<HeaderView>> {
+        Ok(self
+            .index
+            .get_all_with_deletion_marker(key)
+            .await?
+            .iter()
+            .map(HeaderView::of)
+            .collect())
+    }
+
+    /// All headers without trailing deletion marker
+    pub async fn get_all(&self, key: &K) -> Result<Vec<HeaderView>> {
+        Ok(self.index.get_all(key).await?.iter().map(HeaderView::of).collect())
+    }
+
+    /// Fast key presence check (None when the index is on disk)
+    pub fn contains_key_fast(&self, key: &K) -> Option<bool> {
+        self.index.contains_key_fast(key)
+    }
+
+    /// Filter check as `Blob::check_filter` performs it
+    pub async fn check_filter(&self, key: &K) -> FilterResult {
+        use crate::filter::FilterTrait;
+        match self.index.contains_key_fast(key) {
+            Some(true) => return FilterResult::NeedAdditionalCheck,
+            Some(false) => return FilterResult::NotContains,
+            None => {}
+        }
+        self.index.get_filter().contains(&self.index, key).await
+    }
+
+    /// Offload the bloom buffer (only has effect when on disk)
+    pub fn offload_filter(&mut self) -> usize {
+        self.index.offload_filter()
+    }
+
+    /// Bloom config used
+    pub fn bloom_config(&self) -> &Option<BloomConfig> {
+        &self.bloom
+    }
+}
